@@ -175,3 +175,40 @@ func VerifC06_attester_rejected_call_leaves_no_trace() {
 		vReach("then-inauthentic")
 	}
 }
+
+// a large request (origin name of about 1 KiB, so that the signed message exceeds any small fixed
+// buffer): accepted as is, rejected with any other ciphertext or signature
+func VerifC06_attester_large_request() {
+	vUnwind(40)
+	vUseModels("ecapi")
+	name := make([]byte, vBound("C06_large_origin", 1000, 4000))
+	for i := range name {
+		name[i] = 'a' + byte(i%26)
+	}
+	issuer := t3Issuer(string(name))
+	secret := vBytes("client_secret", 48, 48)
+	vAssume(secret[0] != 0)
+	blind := vBytes("blind", 48, 48)
+	vAssume(blind[0] != 0)
+	st, err := NewRateLimitedClientFromSecret(secret).CreateTokenRequest(vBytesC("challenge", 0, 0), vBytes("nonce", 32, 32), blind, issuer.TokenKeyID(), issuer.TokenKey(), string(name), issuer.NameKey())
+	vAssume(err == nil)
+	req := *st.Request()
+	anon := vBytes("anon_origin", 8, 8)
+	cache := &c06Cache{m: map[string]*ClientState{}}
+	attester := NewRateLimitedAttester(cache)
+	switch vSplit(vInt("perturbation", 0, 2), 0, 2) {
+	case 0:
+		vAssert(attester.VerifyRequest(req, blind, st.ClientKey(), anon) == nil, "large-honest-request-accepted")
+		vReach("honest")
+	case 1:
+		req.EncryptedTokenRequest = append([]byte{}, req.EncryptedTokenRequest...)
+		req.EncryptedTokenRequest[vSplit(vInt("position", 0, 2), 0, 2)*(len(req.EncryptedTokenRequest)-1)/2] ^= 1 << uint(vInt("bit", 0, 7))
+		vAssert(attester.VerifyRequest(req, blind, st.ClientKey(), anon) != nil, "large-request-with-changed-ciphertext-rejected")
+		vAssert(cache.puts == 0, "rejected-request-leaves-cache-untouched")
+		vReach("ciphertext-changed")
+	default:
+		req.Signature = c06Other("other_signature", req.Signature)
+		vAssert(attester.VerifyRequest(req, blind, st.ClientKey(), anon) != nil, "large-request-with-changed-signature-rejected")
+		vReach("signature-changed")
+	}
+}
